@@ -77,6 +77,26 @@ fn sequences(thorough: bool) -> Vec<Vec<Call>> {
             }
         }
     }
+    if thorough {
+        // four consecutive calls over the lengths around the small-copy threshold
+        let l4 = [0usize, 1, 8, 9];
+        for &a in &l4 {
+            for &b in &l4 {
+                for &c in &l4 {
+                    for &d in &l4 {
+                        for e in 0..16u32 {
+                            v.push(vec![
+                                Call { len: a, exact: e & 1 != 0, mis: 1 },
+                                Call { len: b, exact: e & 2 != 0, mis: 6 },
+                                Call { len: c, exact: e & 4 != 0, mis: 0 },
+                                Call { len: d, exact: e & 8 != 0, mis: 3 },
+                            ]);
+                        }
+                    }
+                }
+            }
+        }
+    }
     v
 }
 
@@ -524,7 +544,7 @@ fn fd_adapters(ctx: &Ctx, thorough: bool) -> Vec<String> {
 
 pub fn run(tier: Tier, replay: Option<String>) -> i32 {
     let ctx = crate::new_ctx("C13", tier, "exploration", &replay);
-    ctx.set_rule("for every adapter the crate provides (&[u8], &mut [u8], Vec<u8>, Cursor<&[u8]>, Cursor<Vec<u8>>, Cursor<&mut [u8]>, File, OwnedFd, BorrowedFd, UnixStream, TcpStream, Stdout): every stream length 0..=20, every cursor position 0..=22 plus u64::MAX-1 and u64::MAX, every buffer length 0..=20 (single calls, plain and exact form, two buffer misalignments) and every sequence of 2 and 3 consecutive calls over a boundary set of buffer lengths (fd adapters: lengths 0..=9, 2 calls; also descriptors opened in the wrong access mode and datagram sockets, where an empty call is observable: error kinds and the list of datagrams delivered / left are compared) - each executed on the volatile adapter and on its std::io twin with an ordinary buffer; count / error kind, bytes landed, remaining stream / position / vector contents and canaries around the volatile buffer are compared after every call. One case = one call; non-trivial = non-empty buffer; distinct by construction.");
+    ctx.set_rule("for every adapter the crate provides (&[u8], &mut [u8], Vec<u8>, Cursor<&[u8]>, Cursor<Vec<u8>>, Cursor<&mut [u8]>, File, OwnedFd, BorrowedFd, UnixStream, TcpStream, Stdout): every stream length 0..=20, every cursor position 0..=22 plus u64::MAX-1 and u64::MAX, every buffer length 0..=20 (single calls, plain and exact form, two buffer misalignments) and every sequence of 2 and 3 (thorough: also 4) consecutive calls over a boundary set of buffer lengths (fd adapters: lengths 0..=9, 2 calls; also descriptors opened in the wrong access mode and datagram sockets, where an empty call is observable: error kinds and the list of datagrams delivered / left are compared) - each executed on the volatile adapter and on its std::io twin with an ordinary buffer; count / error kind, bytes landed, remaining stream / position / vector contents and canaries around the volatile buffer are compared after every call. One case = one call; non-trivial = non-empty buffer; distinct by construction.");
     ctx.assume("stream state after a failed exact call is not compared (std leaves it unspecified)");
     if ctx.replay_of.is_some() {
         println!("replay: deterministic enumeration; re-running it");
